@@ -163,6 +163,29 @@ def case_ll(B, cfg):
                 np.array(th2)
             B.eq('second evaluation at other parameters = its own sum',
                  ll(th2), tot2)
+    if cfg.get('mutate_after') and n_out >= 1:
+        # the caller goes on using the model object: the likelihood keeps
+        # scoring against the model it was built with
+        for step in cfg['mutate_after']:
+            if step == 'outputs':
+                mm.set_outputs(list(mm._all_outputs)[::-1][:max(
+                    1, len(mm._all_outputs) - 1)])
+            elif step == 'names':
+                mm.set_output_names({o: 'renamed ' + o
+                                     for o in mm._all_outputs})
+                mm.set_parameter_names({p: 'renamed ' + p
+                                        for p in mm.parameters()})
+            elif step == 'sens':
+                mm.enable_sensitivities(True)
+        try:
+            B.eq('value after the caller re-configured the model object',
+                 ll(th), total)
+            pw3 = ll.compute_pointwise_ll(th)
+            B.eq('sum(pointwise) after the caller re-configured the model '
+                 'object', np.sum(pw3), total)
+        except Exception as e:
+            B.fact('no-exception: evaluation after the caller re-configured '
+                   'the model object', False, repr(e))
     if cfg.get('posterior', False):
         prior = SymPrior(B, len(theta))
         post = chi.LogPosterior(ll, prior)
@@ -209,6 +232,23 @@ def selections():
                     ems=ems, times=ts, outputs=list(sel),
                     n_model_out=n_model), {}))
                 k += 1
+    return out
+
+
+def mutations():
+    out = []
+    pairs = list(itertools.product(refs.ERROR_MODELS, repeat=2))
+    k = 0
+    for steps in (['outputs'], ['names'], ['sens'], ['outputs', 'names'],
+                  ['names', 'sens', 'outputs']):
+        for ts in ([[0.0, 1.0], [1.0]], [[1.0], [0.0, 2.5]]):
+            out.append(('ll', 'case_ll', dict(
+                ems=list(pairs[(3 * k + 1) % 16]), times=ts,
+                mutate_after=steps), {}))
+            k += 1
+        out.append(('ll', 'case_ll', dict(
+            ems=[refs.ERROR_MODELS[k % 4]], times=[[0.0, 2.5]],
+            mutate_after=steps, n_model_out=2, outputs=[1]), {}))
     return out
 
 
@@ -264,6 +304,7 @@ def jobs(tier):
                 ems=e, times=[[0.0], [0.0, 1.0], [1.0], [2.5]]), {}))
         out += empty_layouts()
         out += selections()
+        out += mutations()
     else:
         g = grids(4, 3)
         for i, t in enumerate(g):
@@ -291,6 +332,7 @@ def jobs(tier):
         out.append(('ll', 'case_ll', dict(
             ems=['Gaussian'], times=[[2.5, 1.0]], unsorted=True), {}))
         out += selections()
+        out += mutations()
     return out
 
 
